@@ -1294,11 +1294,16 @@ class Trust(Packet):
         super(Trust, self).__init__()
         self.trustlevel = TrustLevel.Unknown
         self.trustflags = []
+        self._raw_body = None
 
     def __bytearray__(self):
         _bytes = bytearray()
         _bytes += super(Trust, self).__bytearray__()
-        _bytes += self.int_to_bytes(self.trustlevel + sum(self.trustflags), 2)
+        if self._raw_body is not None:
+            # implementation-defined contents of another implementation: hand them back unchanged
+            _bytes += self._raw_body
+        else:
+            _bytes += self.int_to_bytes(self.trustlevel + sum(self.trustflags), 2)
         return _bytes
 
     def parse(self, packet):
@@ -1307,6 +1312,7 @@ class Trust(Packet):
         # header, and keep the level and flags only when they are the two-octet form written by this class
         body = packet[:self.header.length]
         del packet[:self.header.length]
+        self._raw_body = bytes(body)
 
         t = self.bytes_to_int(body[:2])
         try:
